@@ -40,7 +40,7 @@ func (c11) Runs(tier string) int {
 
 func (p c11) Run(runseed uint64, tier string, acc *Acc) []*core.Violation {
 	r := core.NewRng(runseed)
-	o := core.HistOpts{Shapes: allShapes, PageMin: 1, PageMax: 8, MinBatches: 0, MaxBatches: 4, MaxOps: 30, Profile: core.Benign}
+	o := core.HistOpts{Shapes: allShapes, PageMin: 1, PageMax: 8, MinBatches: 0, MaxBatches: 4, MaxOps: 30, Profile: core.Benign, LargePct: 1}
 	if tier == "thorough" {
 		o.MaxOps = 60
 	}
@@ -65,7 +65,13 @@ func (p c11) Run(runseed uint64, tier string, acc *Acc) []*core.Violation {
 	acc.MixFP(f.Digest)
 	acc.Inc("codec/" + f.W.Codec)
 	acc.Inc("shape/" + f.W.Shape)
+	if f.W.Large {
+		acc.Inc("class/large")
+	}
 	L := len(f.Data)
+	if L > 64<<10 {
+		acc.Inc("class/over-64KiB-sampled")
+	}
 	var vios []*core.Violation
 	nontrivial := 0
 	boundary := map[int]bool{}
